@@ -928,9 +928,6 @@ class Fxp():
             else:
                 self.val = new_val
 
-            self.real = self.get_val()
-            self.imag = 0
-
         else:
             # extract real and imaginary parts (in double precision, whatever the precision of the complex carrier)
             new_val_real = np.vectorize(lambda v: v.real)(val)
@@ -971,8 +968,16 @@ class Fxp():
             else:
                 self.val = new_val
 
+        # an object that holds complex codes has a complex value type, however they got there (a raw write, a real element
+        # written into a complex array): the value views must not drop the imaginary parts
+        if np.iscomplexobj(self.val):
+            self.vdtype = complex
+        if self.vdtype == complex:
             self.real = self.astype(complex).real
             self.imag = self.astype(complex).imag
+        else:
+            self.real = self.get_val()
+            self.imag = 0
 
         # update dtype
         self._update_dtype()
@@ -1608,6 +1613,10 @@ class Fxp():
         if not isinstance(y.val, (np.ndarray, np.generic)):
             # an element of an object array (extended precision) is a bare Python int: keep the array interface
             y.val = np.array(y.val, dtype=object)
+        if np.iscomplexobj(y.val) and y.vdtype != complex:
+            # (elements of a complex result whose value type was not set: they are complex too)
+            y.vdtype = complex
+            y._update_dtype()
         return y
 
     def __setitem__(self, index, value):
